@@ -76,6 +76,12 @@ func init() {
 }
 
 var checks = map[string]*Check{
+	"C11": {ID: "C11", Parts: []Part{{Harness: "core", Func: "C11"}}, Category: "exploration", QuickDeadline: 240, ThoroughDeadline: 1500, CrashIsViolation: true, Workers: 8,
+		Engine: "E1", DesignRef: "6/C11",
+		Technique: "bounded-exhaustive enumeration of looping script shapes x cancellation points (context cancelled at the k-th harness tick, pre-cancelled, pre-expired, real deadlines) x routing x concurrency, with a logical (tick-count) bound on progress after cancellation and a goroutine-leak check by runtime.Stack",
+		LevelText: "Every combination of looping script shape, position (action/guard), cancellation point, error routing and number of concurrent executions is run on the real interpreter and engine; the call must return, the script must not keep running after its context is done (bounded in ticks, not in milliseconds), the failure must be the timeout error routed like any action error, and no goroutine started for the call may survive it.",
+		LevelNote: "Only partly within the family: the cancellation point is an enumerated choice, but what happens inside goja between the cancel and the interruption is not under the scheduler's control; 'promptly' is weakened to a tick-count bound and a 90 s horizon. Real deadlines use the real clock.",
+		Assumptions: commonAssumptions},
 	"C10": {ID: "C10", Parts: []Part{{Harness: "core", Func: "C10"}, {Harness: "corec", Func: "C10c", Race: true}}, GoMaxProcs: 1, Category: "exploration", QuickDeadline: 240, ThoroughDeadline: 1500,
 		Engine: "E1+E2", DesignRef: "6/C10",
 		Technique: "bounded-exhaustive enumeration of (polluter, [polluter,] probe) script sequences with solo-equivalence and caller-snapshot oracles; stateless schedule exploration of concurrent executions of one compiled source (with a race-detector pass)",
